@@ -10,6 +10,7 @@ import (
 	"crypto/ecdsa"
 	"crypto/elliptic"
 	"encoding/json"
+	"errors"
 	"fmt"
 	"io"
 	"math/big"
@@ -57,7 +58,7 @@ type filter struct {
 }
 
 type field struct {
-	Path string   `json:"path"` // f | g | type
+	Path []string `json:"path"` // the field's paths in order, each f | g | h | type (several may select a value in one credential)
 	Flt  []filter `json:"flt"`
 	Opt  bool     `json:"opt"`
 	ID   string   `json:"id"`
@@ -143,6 +144,7 @@ type expect struct {
 	Dev      []devRow            `json:"dev"`
 	Valid    [][]string          `json:"valid"`
 	Complete bool                `json:"complete"`
+	MustFind bool                `json:"mustfind"` // a complete selection exists and the definition leaves no room about what one is
 	Pred     pred                `json:"pred"`
 	Extract  []extract           `json:"extract"`
 	Class    string              `json:"class"` // shape class used in violation signatures
@@ -309,13 +311,20 @@ func formatJSON(f string) map[string]any {
 	return nil
 }
 
-func pathsOf(p string) []any {
-	switch p {
-	case "type":
-		return []any{"$.type"}
-	default:
-		return []any{"$.credentialSubject." + p, "$.credentialSubject[0]." + p}
+// pathsOf: the JSON paths of a field. Every abstract path of the subject comes in the two encodings definitions use
+// (object / array valued credentialSubject); at most one of the two selects something, but DIFFERENT abstract paths may
+// select a value each in the same credential.
+func pathsOf(ps []string) []any {
+	out := []any{}
+	for _, p := range ps {
+		switch p {
+		case "type":
+			out = append(out, "$.type")
+		default:
+			out = append(out, "$.credentialSubject."+p, "$.credentialSubject[0]."+p)
+		}
 	}
+	return out
 }
 
 func reqJSON(r req) map[string]any {
@@ -604,7 +613,7 @@ func sameVal(real any, v val) bool {
 func filterClass(d desc) string {
 	var parts []string
 	for _, f := range d.Fields {
-		s := f.Path + ":"
+		s := strings.Join(f.Path, "|") + ":"
 		if len(f.Flt) == 0 {
 			s += "nofilter"
 		} else {
@@ -632,11 +641,20 @@ func filterClass(d desc) string {
 	return strings.Join(parts, ",")
 }
 
-func valueClass(c cred, path string) string {
+func valueClass(c cred, paths []string) string {
+	if len(paths) > 1 {
+		var parts []string
+		for _, p := range paths {
+			parts = append(parts, valueClass(c, []string{p}))
+		}
+		return strings.Join(parts, "|")
+	}
 	v := c.F
-	switch path {
+	switch paths[0] {
 	case "g":
 		v = c.G
+	case "h":
+		return "absent"
 	case "type":
 		return "array-of-string"
 	}
@@ -726,10 +744,10 @@ func runCase(c acase, in input) (res result) {
 	// 3. WalletMatch: the real Match
 	var selVCs []vc.VerifiableCredential
 	var selMap []pe.InputDescriptorMappingObject
+	var matchErr error
 	om := guarded(func() error {
-		var err error
-		selVCs, selMap, err = pd.Match(wallet)
-		return err
+		selVCs, selMap, matchErr = pd.Match(wallet)
+		return matchErr
 	})
 	res.Calls++
 	res.Real = om.res
@@ -738,6 +756,22 @@ func runCase(c acase, in input) (res result) {
 		viol(violation{Kind: "panic", Shape: class, Detail: "Match: " + om.err + " at " + om.stack})
 	}
 	res.Checks++
+	// NoFalseMissing: "missing credentials" is the wallet's report that no complete selection exists; it must be true
+	if om.res == "error" && errors.Is(matchErr, pe.ErrNoCredentials) && c.Exp.MustFind {
+		var fc []string
+		for _, d := range c.Def.Ds {
+			for _, cn := range c.Exp.Sat[d.ID] {
+				vcl := ""
+				for _, f := range d.Fields {
+					vcl += valueClass(credByName[cn], f.Path) + ","
+				}
+				fc = append(fc, filterClass(d)+" on "+strings.TrimSuffix(vcl, ","))
+				break
+			}
+		}
+		viol(violation{Kind: "false-missing-credentials", Shape: class, Filter: strings.Join(fc, "; "),
+			Detail: fmt.Sprintf("Match reports %q although a complete selection exists: reference sat = %v, valid descriptor sets %v", om.err, c.Exp.Sat, c.Exp.Valid)})
+	}
 	var realVcs []string
 	var realMap []mapping
 	if om.res == "ok" {
